@@ -216,9 +216,19 @@ Next ==
   \/ \E p \in P : Cancel(p) /\ Step([a |-> "cancel", p |-> p])
   \/ Tick /\ Step([a |-> "tick"])
 
+Quiet ==   \* the same steps without the graph emission (for ENABLED)
+  \/ \E p \in P : Start(p)
+  \/ \E p \in P : PassAcqEnter(p)
+  \/ \E p \in P : PassAcqExit(p)
+  \/ \E p \in P : ChildPass(p)
+  \/ \E p \in P, o \in Outcomes : Release(p, o)
+  \/ \E p \in P : PassRelExit(p)
+  \/ \E p \in P : Cancel(p)
+  \/ Tick
+
 EmitInit == Emit => /\ PrintT(<<"I", ToJson([st |-> St, obs |-> Obs])>>)
                     /\ PrintT(<<"C", ToJson([kind |-> Kind, limit |-> Limit, poll |-> Poll, deadline |-> Deadline,
-                                             procs |-> P, fine |-> Fine, recheck |-> Recheck, cancellable |-> Cancellable, horizon |-> MaxTime])>>)
+                                             procs |-> P, fine |-> Fine, blackbox |-> FALSE, allserved |-> FALSE, recheck |-> Recheck, cancellable |-> Cancellable, horizon |-> MaxTime])>>)
 InitE == Init /\ EmitInit
 Spec == Init /\ [][Next]_vars
 
@@ -249,4 +259,9 @@ RefusedHoldsNothing == \A p \in P : res[p] = "refused" => pc[p] = "done"
 
 (* C19 liveness shape: with every holder completing, every caller is eventually answered *)
 AllAnswered == \A p \in P : pc[p] \in {"held", "done"}
+
+(* C19 / C10 liveness shape on a finite acyclic graph: every maximal behaviour ends in a state *)
+(* without successors; if every such state has all callers granted and completed, then under  *)
+(* fairness every caller is eventually served (use with no cancellation and no time-outs).     *)
+TerminalAllServed == (~ENABLED Quiet) => \A p \in P : pc[p] = "done" /\ res[p] = "granted"
 =================================================================================
